@@ -25,7 +25,35 @@ struct Tok { from: usize, to: usize, pos: usize, text: String }
 #[derive(Clone, Debug)]
 enum Tk { Simple, Whitespace, Raw, Ngram(usize, usize, bool), Regex(String), Facet }
 #[derive(Clone, Debug)]
-enum Fl { Lower, Fold, RemoveLong(usize), AlnumOnly, Stop(Vec<String>), Stem(usize), Split(Vec<String>) }
+enum Fl { Lower, Fold, RemoveLong(usize), AlnumOnly, Stop(Vec<String>), Stem(usize), Split(Vec<String>), Probe(Probe) }
+
+
+/// Identity filter that records the text of every token passing through it: used to collect the exact
+/// inputs of a stemmer / compound splitter inside a chain (oracle tables), without changing the chain's behaviour.
+#[derive(Clone, Debug, Default)]
+struct Probe(std::sync::Arc<std::sync::Mutex<Vec<String>>>);
+#[derive(Clone)]
+struct ProbeTokenizer<T> { inner: T, log: Probe }
+struct ProbeStream<T> { tail: T, log: Probe }
+impl TokenFilter for Probe {
+    type Tokenizer<T: Tokenizer> = ProbeTokenizer<T>;
+    fn transform<T: Tokenizer>(self, tokenizer: T) -> ProbeTokenizer<T> { ProbeTokenizer { inner: tokenizer, log: self } }
+}
+impl<T: Tokenizer> Tokenizer for ProbeTokenizer<T> {
+    type TokenStream<'a> = ProbeStream<T::TokenStream<'a>>;
+    fn token_stream<'a>(&'a mut self, text: &'a str) -> Self::TokenStream<'a> { ProbeStream { tail: self.inner.token_stream(text), log: self.log.clone() } }
+}
+impl<T: TokenStream> TokenStream for ProbeStream<T> {
+    fn advance(&mut self) -> bool { let r = self.tail.advance(); if r { self.log.0.lock().unwrap().push(self.tail.token().text.clone()); } r }
+    fn token(&self) -> &Token { self.tail.token() }
+    fn token_mut(&mut self) -> &mut Token { self.tail.token_mut() }
+}
+fn probe_inputs(text: &str, tk: &Tk, fls: &[Fl], i: usize) -> Vec<String> {
+    let p = Probe::default();
+    let mut chain: Vec<Fl> = fls[..i].to_vec(); chain.push(Fl::Probe(p.clone())); chain.extend_from_slice(&fls[i..]);
+    let _ = run(&mut build(tk, &chain), text);
+    let mut v = p.0.lock().unwrap().clone(); v.sort(); v.dedup(); v
+}
 
 static LONG_TOKEN: std::sync::atomic::AtomicBool = std::sync::atomic::AtomicBool::new(false);
 const LANGS: [Language; 4] = [Language::English, Language::French, Language::German, Language::Russian];
@@ -53,6 +81,7 @@ fn build(tk: &Tk, fls: &[Fl]) -> TextAnalyzer {
             Fl::Stop(w) => b.filter_dynamic(StopWordFilter::remove(w.iter().cloned())),
             Fl::Stem(l) => b.filter_dynamic(Stemmer::new(LANGS[*l])),
             Fl::Split(d) => b.filter_dynamic(SplitCompoundWords::from_dictionary(d.iter().map(|s| s.as_str())).unwrap()),
+            Fl::Probe(p) => b.filter_dynamic(p.clone()),
         };
     }
     b.build()
@@ -167,7 +196,7 @@ fn dict_find(dict: &[String], text: &str) -> Vec<(usize, usize)> {
 }
 
 struct Oracles { alnum: BTreeSet<char>, lower: BTreeMap<char, String>, fold: BTreeMap<char, String>,
-                 stem: Vec<(String, String)>, dict: Vec<(String, Vec<(usize, usize)>)>, re: Vec<(usize, (usize, usize))> }
+                 stem: Vec<(usize, Vec<(String, String)>)>, dict: Vec<(usize, Vec<(String, Vec<(usize, usize)>)>)>, re: Vec<(usize, (usize, usize))> }
 
 fn oracles(text: &str, tk: &Tk, fls: &[Fl]) -> Oracles {
     let mut o = Oracles { alnum: Default::default(), lower: Default::default(), fold: Default::default(), stem: vec![], dict: vec![], re: vec![] };
@@ -189,10 +218,12 @@ fn oracles(text: &str, tk: &Tk, fls: &[Fl]) -> Oracles {
     // per-filter tables need the token texts that reach the filter
     for (i, f) in fls.iter().enumerate() {
         match f {
-            Fl::Stem(l) => if let Ok(ts) = run(&mut build(tk, &fls[..i]), text) {
-                for t in ts { if let Ok(r) = run(&mut build(&Tk::Raw, &[Fl::Stem(*l)]), &t.text) { if r[0].text != t.text { o.stem.push((t.text.clone(), r[0].text.clone())); } } } },
-            Fl::Split(d) => if let Ok(ts) = run(&mut build(tk, &fls[..i]), text) {
-                for t in ts { let m = dict_find(d, &t.text); if !m.is_empty() { o.dict.push((t.text.clone(), m)); } } },
+            Fl::Stem(l) => { let mut tbl = vec![];
+                for t in probe_inputs(text, tk, fls, i) { if let Ok(r) = run(&mut build(&Tk::Raw, &[Fl::Stem(*l)]), &t) { if r[0].text != t { tbl.push((t.clone(), r[0].text.clone())); } } }
+                o.stem.push((i, tbl)); }
+            Fl::Split(d) => { let mut tbl = vec![];
+                for t in probe_inputs(text, tk, fls, i) { let m = dict_find(d, &t); if !m.is_empty() { tbl.push((t.clone(), m)); } }
+                o.dict.push((i, tbl)); }
             _ => {}
         }
     }
@@ -206,7 +237,6 @@ fn oracles(text: &str, tk: &Tk, fls: &[Fl]) -> Oracles {
             }
         }
     }
-    o.stem.dedup(); o.dict.dedup();
     o
 }
 
@@ -216,20 +246,24 @@ fn tk_term(tk: &Tk) -> String {
 }
 fn fl_term(f: &Fl) -> String {
     match f { Fl::Lower => "FLower".into(), Fl::Fold => "FAsciiFold".into(), Fl::RemoveLong(n) => format!("(FRemoveLong {})", n), Fl::AlnumOnly => "FAlnumOnly".into(),
-              Fl::Stop(w) => format!("(FStop {})", cf::list(w, |s| cps(s))), Fl::Stem(_) => "FStem".into(), Fl::Split(_) => "FSplit".into() }
+              Fl::Stop(w) => format!("(FStop {})", cf::list(w, |s| cps(s))), Fl::Stem(_) => "FStem".into(), Fl::Split(_) => "FSplit".into(), Fl::Probe(_) => unreachable!() }
+}
+fn fls_term(fls: &[Fl]) -> String {
+    let v: Vec<String> = fls.iter().enumerate().map(|(i, f)| match f { Fl::Stem(_) => format!("(FStem {})", i), Fl::Split(_) => format!("(FSplit {})", i), _ => fl_term(f) }).collect();
+    cf::list(&v, |s| s.clone())
 }
 fn analyze_term(o: &Oracles, tk: &Tk, fls: &[Fl], text: &str) -> String {
     let alnum: Vec<char> = o.alnum.iter().cloned().collect();
     let lower: Vec<(char, String)> = o.lower.iter().map(|(c, s)| (*c, s.clone())).collect();
     let fold: Vec<(char, String)> = o.fold.iter().map(|(c, s)| (*c, s.clone())).collect();
-    format!("analyze (mem_cp {}) (lower_of {}) (fold_of {}) (text_fn_of {}) (dict_of {}) (re_of {}) {} {} {}",
+    format!("analyze (mem_cp {}) (lower_of {}) (fold_of {}) (stem_of {}) (dicts_of {}) (re_of {}) {} {} {}",
         cf::list(&alnum, |c| format!("{}", *c as u32)),
         cf::list(&lower, |(c, s)| format!("({}, {})", *c as u32, cps(s))),
         cf::list(&fold, |(c, s)| format!("({}, {})", *c as u32, cps(s))),
-        cf::list(&o.stem, |(a, b)| format!("({}, {})", cps(a), cps(b))),
-        cf::list(&o.dict, |(a, m)| format!("({}, {})", cps(a), cf::list(m, |(x, y)| format!("({}, {})", x, y)))),
+        cf::list(&o.stem, |(i, tbl)| format!("({}, {})", i, cf::list(tbl, |(a, b)| format!("({}, {})", cps(a), cps(b))))),
+        cf::list(&o.dict, |(i, tbl)| format!("({}, {})", i, cf::list(tbl, |(a, m)| format!("({}, {})", cps(a), cf::list(m, |(x, y)| format!("({}, {})", x, y)))))),
         cf::list(&o.re, |(l, (a, b))| format!("({}, ({}, {}))", l, a, b)),
-        tk_term(tk), cf::list(fls, fl_term), cps(text))
+        tk_term(tk), fls_term(fls), cps(text))
 }
 
 // ---------------------------------------------------------------- Rust-side spec predicates (bulk)
@@ -269,8 +303,10 @@ fn unhtml(h: &str) -> String {
 /// (classifier evaluated there), the rest are recorded with the `known` tag; outside the class it is a violation.
 fn known_hit(out: &mut CaseOut, budget: &mut BTreeMap<&'static str, i64>, id: &'static str, in_class: bool, term: String, desc: serde_json::Value) {
     let b = budget.entry(id).or_insert(0);
-    if !in_class || *b > 0 { *b -= 1; out.coq_case(&format!("known:{}", id), term, desc, true); }
-    else { let mut d = desc; d["known"] = json!(id); out.spec_checked(false, d); }
+    let small = term.len() <= 20_000;        // a Gallina term of megabytes (the 350 000-character text) is not shipped to Coq
+    if small && (!in_class || *b > 0) { *b -= 1; out.coq_case(&format!("known:{}", id), term, desc, true); }
+    else if in_class { let mut d = desc; d["known"] = json!(id); out.spec_checked(false, d); }
+    else { out.spec_checked(false, desc); }
 }
 fn f9_in_class(text: &str, toks: &[Tok], frag: &str, max: usize) -> bool { toks.iter().any(|t| t.to - t.from > max && text.get(t.from..t.to) == Some(frag)) }
 
@@ -309,7 +345,7 @@ fn main() {
             let nontrivial = !toks.is_empty() && (!text.is_ascii() || !fls.is_empty());
             if !t_ok {
                 // only the facet tokenizer is known to leave offsets unset (F22)
-                known_hit(&mut out, &mut known_budget, "F22", matches!(tk, Tk::Facet) && base.len() <= 200, format!("f22_class {} {}", cps(&text), toks_term(&base)), json!({"what": "token text differs from its slice", "case": desc}));
+                known_hit(&mut out, &mut known_budget, "F22", matches!(tk, Tk::Facet), format!("f22_class {} {}", cps(&text), toks_term(&base)), json!({"what": "token text differs from its slice", "case": desc}));
             }
             if !small || coq_budget <= 0 { continue; }
             coq_budget -= 1;
